@@ -107,6 +107,11 @@ example : eligible "A.sol" = true ∧ eligible "A.t.sol" = false ∧ eligible "A
     eligible "x.t.solver.sol" = true ∧ eligible "x.sol.txt" = false ∧ eligible ".sol" = true ∧ eligible "sol" = false ∧
     eligible "A.SOL" = false := by decide
 
+/-- names with several dots, hidden files, and names that merely contain the suffixes -/
+example : eligible "Vault.v2.sol" = true ∧ eligible "ERC20.Permit.sol" = true ∧ eligible "Vault.v2.t.sol" = false ∧
+    eligible ".t.sol" = false ∧ eligible ".hidden.sol" = true ∧ eligible "a.t.sol.sol" = true ∧ eligible "t.sol" = true ∧
+    eligible "Vault.sol.bak" = false ∧ eligible "Vault.sol~" = false := by decide
+
 /-- an ineligible file, whatever its name, bytes or readability, contributes nothing wherever it is
 inserted in a listing -/
 theorem contentsOf_insert_ineligible (xs ys : List Entry) (name : String) (c : Option (List UInt8))
